@@ -1,7 +1,7 @@
 """C18 — short-circuit results are consistent with IEC 60909 relations (DESIGN §5; ShortCircuit*.tla, Wide.tla).
 
 ShortCircuit.tla enumerates (network feature set x case x ip mode x branch_results x lv_tol) x (fault, sn_mva, inverse_y,
-faulted-bus subset) as PAIRS of runs that differ in one option; every distinct run is executed on the real calc_sc and
+faulted-bus subset, labelling of the bus table) as PAIRS of runs that differ in one option; every distinct run is executed on the real calc_sc and
 ShortCircuitObs.tla (TLC) decides every clause on the recorded results (wide integers, scale 1e10).  Python only drives.
 """
 import copy
@@ -25,7 +25,8 @@ BUS_COLS = (("ikss", "ikss_ka"), ("skss", "skss_mw"), ("ip", "ip_ka"), ("rk", "r
             ("rk0", "rk0_ohm"), ("xk0", "xk0_ohm"))
 # constants of ShortCircuit.cfg replaced in the thorough tier (quick = the committed cfg)
 THOROUGH = {"Rings": "{TRUE, FALSE}", "LvTols": "{6, 10}", "SubsetSizes": "{1, 2}",
-            "ExtraSubsets": "{{1, 2, 3}, {0, 2, 4}, {1, 2, 3, 4}}"}
+            "ExtraSubsets": "{{1, 2, 3}, {0, 2, 4}, {1, 2, 3, 4}}", "Labels": '{"rot", "rev", "sparse"}',
+            "LabelBuses": "{{0, 1, 2, 3, 4}, {2, 4}, {0}, {1, 3}}"}
 # numeric parameters of the template that get a seeded multiplicative jitter (permille), same for all runs of one cfg
 JITTER = ("s_sc", "rx", "t0_vk", "km0", "km1", "km2", "t1_vk", "xdss", "k_sgen")
 _NETS = {}
@@ -42,12 +43,13 @@ def W(x):
     return wide(x, SCALE)
 
 
-def build_net(gen, sgen, ring, jit):
-    """The template of ShortCircuitDef.tla (bus numbers and rated voltages are the spec's table VnVolt)."""
+def build_net(gen, sgen, ring, jit, labels=(0, 1, 2, 3, 4)):
+    """The template of ShortCircuitDef.tla (bus numbers and rated voltages are the spec's table VnVolt); labels = the
+    spec's LabelSeq(run.lab): template bus i is created as row i of net.bus with index labels[i]."""
     import pandapower as pp
     j = {k: jit.get(k, 1000) / 1000.0 for k in JITTER}
     net = pp.create_empty_network(sn_mva=1.0)
-    b = [pp.create_bus(net, vn, index=i) for i, vn in enumerate((110., 20., 20., 20., 0.4))]
+    b = [pp.create_bus(net, vn, index=int(labels[i])) for i, vn in enumerate((110., 20., 20., 20., 0.4))]
     pp.create_ext_grid(net, b[0], s_sc_max_mva=5000. * j["s_sc"], s_sc_min_mva=3000. * j["s_sc"], rx_max=0.1 * j["rx"],
                        rx_min=0.2 * j["rx"], x0x_max=1.0, r0x0_max=0.1, x0x_min=1.0, r0x0_min=0.1)
     pp.create_transformer_from_parameters(
@@ -70,12 +72,12 @@ def build_net(gen, sgen, ring, jit):
     return net
 
 
-def _net(spec):
-    key = json.dumps(spec, sort_keys=True)
+def _net(spec, labels):
+    key = json.dumps([spec, labels], sort_keys=True)
     if key not in _NETS:
         if len(_NETS) > 6:
             _NETS.clear()
-        _NETS[key] = build_net(spec["gen"], spec["sgen"], spec["ring"], spec["jit"])
+        _NETS[key] = build_net(spec["gen"], spec["sgen"], spec["ring"], spec["jit"], labels)
     return copy.deepcopy(_NETS[key])      # every run starts from the pristine net (history effects are C09's business)
 
 
@@ -83,10 +85,10 @@ def observe_run(item):
     """Execute ONE calc_sc call (the spec's CallOf(cfg, run)) and project the result tables."""
     from pandapower.shortcircuit import calc_sc
     call = item["call"]
-    net = _net(item["net"])
+    net = _net(item["net"], [int(x) for x in call["labels"]])
     net.sn_mva = float(call["sn_mva"])
     bus = None if len(call["bus"]) == NBUS else [int(x) for x in call["bus"]]    # canonical run = the default argument
-    empty = {"rows": [], "vn": [], "line": [], "thv": [], "tlv": []}
+    empty = {"rows": [], "vn": [], "labels": [], "line": [], "thv": [], "tlv": []}
     empty.update({k: [] for k, _ in BUS_COLS})
     try:
         calc_sc(net, bus=bus, fault=call["fault"], case=call["case"], lv_tol_percent=call["lv_tol_percent"],
@@ -97,7 +99,7 @@ def observe_run(item):
     try:
         res = net.res_bus_sc
         out = dict(empty, ok=True, err="", rows=[int(x) for x in res.index],
-                   vn=[int(round(float(x) * 1000)) for x in net.bus.vn_kv.values])
+                   vn=[int(round(float(x) * 1000)) for x in net.bus.vn_kv.values], labels=[int(x) for x in net.bus.index])
         for k, col in BUS_COLS:
             out[k] = [W(x) for x in res[col].values] if col in res.columns else [ABSENT] * len(res)
         if call["branch_results"]:
@@ -240,13 +242,15 @@ def _differs(x, y):
 
 
 def differing_columns(a, b):
-    """Names of the observed columns in which two runs differ -- used ONLY to give a violation its structural key."""
+    """Names of the observed columns in which two runs differ -- used ONLY to give a violation its structural key.
+    Rows are matched by template bus (position of the row's label in the run's own label table)."""
     cols = []
     if not (a["ok"] and b["ok"]):
         return ["raised"]
-    pos = {bus: k for k, bus in enumerate(b["rows"])}
+    pos = {b["labels"].index(lab): k for k, lab in enumerate(b["rows"])}
+    arow = [a["labels"].index(lab) for lab in a["rows"]]
     for c, _ in BUS_COLS:
-        if any(bus not in pos or _differs(a[c][k], b[c][pos[bus]]) for k, bus in enumerate(a["rows"])):
+        if any(bus not in pos or _differs(a[c][k], b[c][pos[bus]]) for k, bus in enumerate(arow)):
             cols.append(c)
     for c in ("line", "thv", "tlv"):
         if len(a[c]) == len(b[c]) and any(_differs(x, y) for x, y in zip(a[c], b[c])):
@@ -261,6 +265,9 @@ def key_of(name, s, runs):
         return "C18|%s|fault=%s|ip=%s" % (name, s["run"]["fault"], how)
     if "Invariant" in name and not name.endswith("Branch"):     # bus clauses: which result columns differ is part of the class
         cols = [c for c in differing_columns(a, b) if c not in ("line", "thv", "tlv")]
+        if name.startswith("C18_Label"):
+            return "C18|%s|fault=%s|%s|lab=%s|cols=%s" % (name, s["run"]["fault"], feature(s["cfg"]), s["run"]["lab"],
+                                                         "+".join(cols) or "none")
         return "C18|%s|fault=%s|%s|cols=%s" % (name, s["run"]["fault"], feature(s["cfg"]), "+".join(cols) or "none")
     return "C18|%s|fault=%s|%s" % (name, s["run"]["fault"], feature(s["cfg"]))
 
@@ -308,7 +315,7 @@ def run(tier, seed, replay=None):
         "traces_validated_against_impl": sum(1 for o in runs.values() if o["ok"]),
         "evaluations": len(states), "distinct_nontrivial": nontriv, "exhaustive": not replay,
         "rule": "every state of ShortCircuit.tla = (cfg: gen/sgen/ring x case x ip mode x branch_results x lv_tol; run: fault x "
-                "sn_mva x inverse_y x faulted-bus subset; ref: run with one option reset); each distinct (cfg, run) is one real "
+                "sn_mva x inverse_y x faulted-bus subset x bus labelling; ref: run with one option reset); each distinct (cfg, run) is one real "
                 "calc_sc call on the 5-bus template (seeded +-10% parameter jitter per cfg); non-trivial = the spec requires "
                 "at least one numeric relation (anything but 'rows are reported') on the state and both calls returned",
         "clause_instances": dict(sorted(inst.items())),
@@ -318,7 +325,8 @@ def run(tier, seed, replay=None):
     v.assumptions = [
         "NOT decided: 'the Thevenin impedance equals that of an independently built network of the elements' short-circuit "
         "models' (needs an independent complex-valued network reduction with the IEC correction factors; DESIGN 5/6) -- rk/xk are "
-        "only checked for consistency with ikss and for invariance across sn_mva / inverse_y / bus subsets",
+        "only checked for consistency with ikss and for invariance across sn_mva / inverse_y / bus subsets / bus labellings "
+        "(permuted and sparse net.bus.index, rows in creation order; labellings are varied on runs with sn_mva 1, inverse_y True)",
         "c is IEC 60909-0 Table 1 as transcribed in ShortCircuitDef.tla (build_bus.py:1061), Un the rated bus voltage of the template",
         "'without current-source contributions' is taken as: no sgen in service (conservative)",
         "skss relation only for fault=3ph (2ph: skss = ikss*Un/sqrt(3) by design); 1ph with a synchronous generator is excluded "
